@@ -220,7 +220,9 @@ class BaseTemplate:
         # that the new body no longer defines) must not be served.
         for name in list(self.__dict__):
             if name.startswith('_render') and name[1:] not in functions:
-                del self.__dict__[name]
+                # (another thread cooking the same body may have removed
+                # it already)
+                self.__dict__.pop(name, None)
 
         self._cooked = True
 
